@@ -126,7 +126,9 @@ def _split_into_branches(
 
         if current_parent == -1 and is_single_point_soma and current_ind == 1:
             all_branches.append([int(current_ind)])
-            all_types.append(int(current_type))
+            # The soma is its own branch (its type was appended above). This is the
+            # type of the branch which starts at the next traced point.
+            all_types.append(int(content[1, 1]))
 
         # Either append the current point to the branch, or add the branch to
         # `all_branches`.
